@@ -1452,7 +1452,8 @@ theorem exC_decP7 (hw : HW) :
     parseHead, maxNested, maxElems, labelsOK, maxInt64, GoVal.keyEq, decodePairs, decodeAny,
     keyHashable, validateHeaderParameters, validateLoop, normalizeLabel, wrap64, checkParam,
     castAlg, algorithmOf, lookupLabel, GoMap.lookup, lbl, GoMap.set, GoMap.has, bind, Out.bind,
-    canInt, canTstr, IntKind.signed]
+    canInt, canTstr, IntKind.signed, Wire.stripSelfDescribed,
+    (by decide : headerLabelsUntagged [0xa1, 0x01, 0x26] = true)]
 
 theorem exC_decP8 (hw : HW) :
     decProtected (.bstr hw [0xa1, 0x01, 0x27]) = .ok [(lbl 1, .alg (-8))] := by
@@ -1460,15 +1461,19 @@ theorem exC_decP8 (hw : HW) :
     parseHead, maxNested, maxElems, labelsOK, maxInt64, GoVal.keyEq, decodePairs, decodeAny,
     keyHashable, validateHeaderParameters, validateLoop, normalizeLabel, wrap64, checkParam,
     castAlg, algorithmOf, lookupLabel, GoMap.lookup, lbl, GoMap.set, GoMap.has, bind, Out.bind,
-    canInt, canTstr, IntKind.signed]
+    canInt, canTstr, IntKind.signed, Wire.stripSelfDescribed,
+    (by decide : headerLabelsUntagged [0xa1, 0x01, 0x27] = true)]
 
 theorem exC_decU4 : decUnprot (.map .imm [(.uint .imm 4, .bstr .imm [0x32])])
     = .ok [(lbl 4, .bytes [0x32])] := by
   simp [decUnprot, labelsOK, decUnprotPairs, decodeAny, isCsigLabel, normalizeLabel, wrap64,
-    maxInt64, validateHeaderParameters, validateLoop, checkParam, canBstr, GoVal.keyEq, lbl]
+    maxInt64, validateHeaderParameters, validateLoop, checkParam, canBstr, GoVal.keyEq, lbl,
+    Wire.stripSelfDescribed,
+    (by decide : headerLabelsUntagged (Wire.map .imm [(.uint .imm 4, .bstr .imm [0x32])]).bytes = true)]
 
 theorem exC_decU0 : decUnprot (.map .imm []) = .ok [] := by
-  simp [decUnprot, labelsOK, decUnprotPairs, validateHeaderParameters, validateLoop]
+  simp [decUnprot, labelsOK, decUnprotPairs, validateHeaderParameters, validateLoop,
+    (by decide : headerLabelsUntagged (Wire.map .imm []).bytes = true)]
 
 theorem exC_cs1 : decSigFields [.bstr .w1 [0xa1, 0x01, 0x26],
     .map .imm [(.uint .imm 4, .bstr .imm [0x32])], .bstr .imm [1, 2]] = .ok cs1D :=
@@ -1488,7 +1493,9 @@ theorem exC_decUn : decUnprot exUnC = .ok exUmC := by
     decCsigValue_list (by simp [decSigFields]) hl
   simp [exUnC, exUmC, decUnprot, labelsOK, decUnprotPairs, decodeAny, isCsigLabel, normalizeLabel,
     wrap64, maxInt64, hv, validateHeaderParameters, validateLoop, checkParam, isCsigValue, cs1D,
-    cs2N, GoVal.keyEq, lbl]
+    cs2N, GoVal.keyEq, lbl, Wire.stripSelfDescribed,
+    (by decide : headerLabelsUntagged
+      (Wire.map .imm [(.uint .imm 11, .arr .imm [cs1W, cs2W])]).bytes = true)]
 
 theorem exBC_tree : exBC = (if true then [0xd2] else []) ++
     (Wire.arr .imm [exPuC, exUnC, .bstr .imm [1, 2, 3], .bstr .imm [7]]).bytes := by decide
